@@ -147,7 +147,7 @@ DEFS = ["[foo]: /url-{i} 'T{i}'\n", "[^n]: note {i}\n", "*[HTML]: Hyper {i}\n", 
         "> > > > > > > deep quote {i}\n", "- - - - - - - deep list {i}\n", "> - > - > - > - mixed {i}\n", "1. 1. 1. 1. 1. 1. 1. deep ordered {i}\n",
         ">! >! >! >! >! >! >! spoiler {i}\n", "> > > > > > > [foo]: /deep{i}\n", "```{note} T\n```{note} U\n```{note} V\ninner {i}\n```\n```\n```\n",
         "*a **b *c **d *e {i}* f** g* h** i*\n", "[a [b [c [d {i}](u)](v)](w)](x)\n"]
-USES = ["<b>raw</b> [j](javascript:x) see https://e.f/x now\n", "a | b\n--|--\n: def\n", "> outer\n>\n> > inner quote\n", "- a\n  - b\n    - c\n", "Setext use\n=====\n\nSecond\n-----\n", "> - x\n>   > y\n",
+USES = ["> ```{toc}\n> ```\n\n# Q\n", "- .. toc::\n\n# R\n", "> .. toc::\n\n## S\n", "- ```{toc}\n  ```\n", "<b>raw</b> [j](javascript:x) see https://e.f/x now\n", "a | b\n--|--\n: def\n", "> outer\n>\n> > inner quote\n", "- a\n  - b\n    - c\n", "Setext use\n=====\n\nSecond\n-----\n", "> - x\n>   > y\n",
         "see [foo] and [foo][] and [x][foo]\n", "ref[^n] again[^n]\n", "The HTML spec\n", "# Another\n\n## Sub\n", "![other](/o.png) ![b](/p.png)\n",
         "plain paragraph\n", "> [foo]\n", "[^n]\n\n[FOO]\n", "- [foo]\n- ![a](/z)\n", "text with HTML and [foo]\n"]
 
@@ -283,6 +283,33 @@ def include_history(ctx):
                         ctx.fail("history:include", "Markdown.read(%s) on a converter that read other pages before differs from a fresh converter (%s include syntax)" % (pg, style),
                                  {"kind": "include", "style": style, "page": pg, "order": order, "pages": pages, "got": got[:500], "fresh": exp[:500]})
                         break
+            # … and two threads on one converter, pages that include each other's parts (chapter includes shared; index includes chapter)
+            import threading
+            w("chapter.md", "# Chapter\n\n" + inc("shared.md") + "text\n")
+            w("index.md", "# Index\n\n" + inc("chapter.md") + inc("footer.md"))
+            conv = mk()
+            want = {pg: mk().read(os.path.join(tmp, pg))[0] for pg in ("chapter.md", "index.md", "a.md")}
+            bad = []
+            def work(pg, rounds):
+                for _ in range(rounds):
+                    try:
+                        got = conv.read(os.path.join(tmp, pg))[0]
+                    except Exception as e:
+                        got = "EXC " + type(e).__name__
+                    if got != want[pg] and not bad:
+                        bad.append((pg, got))
+            import sys as _sys
+            old_si = _sys.getswitchinterval()
+            _sys.setswitchinterval(1e-5)
+            try:
+                ths = [threading.Thread(target=work, args=(pg, 150 if ctx.quick() else 1500)) for pg in ("chapter.md", "index.md", "chapter.md", "a.md")]
+                [t.start() for t in ths]; [t.join() for t in ths]
+            finally:
+                _sys.setswitchinterval(old_si)
+            n += 4
+            if bad:
+                ctx.fail("threads:include", "Markdown.read(%s) on a converter shared by threads that read other pages differs from the single-threaded result (%s include syntax)" % (bad[0][0], style),
+                         {"kind": "include-threads", "style": style, "page": bad[0][0], "got": bad[0][1][:400], "fresh": want[bad[0][0]][:400]})
     finally:
         shutil.rmtree(tmp, ignore_errors=True)
     return n
